@@ -7,9 +7,14 @@
 
   * An instant is `unix : Int` seconds.  The tz database is data: whoever calls
     the model supplies the UTC offset (seconds east) that the interval's
-    location has at that instant (`tz : String → Int`).  `Intervener.Mutes`
-    hands `now.UTC()` to `ContainsTime`, so an interval without a location is
-    read in UTC there (`callerOff = 0`).
+    location has at that instant (`tz : String → Int`).  A Go `time.Time`
+    also carries a location of its own (the caller's: the dispatcher's flush
+    instants come from a timer and carry the process's local zone); the model
+    passes the offset of that location at the instant as `callerOff`.
+    `Intervener.Mutes` hands `now.UTC()` to `ContainsTime` (`utcOff`), so an
+    interval without a location is read in UTC there whatever zone the
+    caller's instant carries — `AM.Props.C15`: `mutes_caller_zone_irrelevant`
+    and the same for the two stages and the pipeline.
   * A field is `Option (List Range)`: `none` is Go's nil slice (field absent:
     matches everything), `some []` an empty non-nil slice (`times: []` in YAML:
     matches nothing) — `ContainsTime` tests `!= nil`, not `len`.
@@ -122,20 +127,28 @@ def containsTime (iv : TimeInterval) (unix : Int) (tz : String → Int) (callerO
 /-- The configuration's named interval sets (`map[string][]TimeInterval`). -/
 abbrev Named := AList String (List TimeInterval)
 
+/-- `time.Time.UTC()`: the same instant carried in the UTC location — the offset
+    of the location the result carries, whatever the argument carried. -/
+def utcOff (_callerOff : Int) : Int := 0
+
 /-- `Intervener.Mutes`: `none` = error (a name is not configured); otherwise the
-    list `in` — a name once per interval of its set that contains the instant. -/
-def mutesNames (cfg : Named) (unix : Int) (tz : String → Int) : List String → Option (List String)
+    list `in` — a name once per interval of its set that contains the instant.
+    `callerOff`: offset of the location carried by the `now` argument; the code
+    normalises it with `now.UTC()` before every `ContainsTime`. -/
+def mutesNames (cfg : Named) (unix : Int) (tz : String → Int) (callerOff : Int) : List String → Option (List String)
   | [] => some []
   | n :: rest =>
     match AList.lookup cfg n with
     | none => none
     | some ivs =>
-      match mutesNames cfg unix tz rest with
+      match mutesNames cfg unix tz callerOff rest with
       | none => none
-      | some more => some ((ivs.filter (fun iv => containsTime iv unix tz 0)).map (fun _ => n) ++ more)
+      | some more =>
+        some ((ivs.filter (fun iv => containsTime iv unix tz (utcOff callerOff))).map (fun _ => n) ++ more)
 
-def mutes (cfg : Named) (names : List String) (unix : Int) (tz : String → Int) : Option (Bool × List String) :=
-  (mutesNames cfg unix tz names).map fun l => (!l.isEmpty, l)
+def mutes (cfg : Named) (names : List String) (unix : Int) (tz : String → Int) (callerOff : Int) :
+    Option (Bool × List String) :=
+  (mutesNames cfg unix tz callerOff names).map fun l => (!l.isEmpty, l)
 
 /-! ### the two notify stages -/
 
@@ -147,8 +160,11 @@ structure StageOut where
   deriving DecidableEq, Repr, Inhabited
 
 /-- `TimeMuteStage.Exec` (route id and group key present).  `names = none`: the
-    context carries no mute-interval key; `now = none`: no timestamp. -/
-def muteStage (cfg : Named) (names : Option (List String)) (now : Option Int) (tz : String → Int) : StageOut :=
+    context carries no mute-interval key; `now = none`: no timestamp;
+    `callerOff`: offset of the location the context's `now` carries (handed to
+    `Intervener.Mutes` as it is). -/
+def muteStage (cfg : Named) (names : Option (List String)) (now : Option Int) (tz : String → Int)
+    (callerOff : Int) : StageOut :=
   match names with
   | none => { passed := true, err := false, marker := some [] }
   | some ns =>
@@ -156,12 +172,13 @@ def muteStage (cfg : Named) (names : Option (List String)) (now : Option Int) (t
     | none => { passed := true, err := true, marker := some [] }
     | some t =>
       if ns.isEmpty then { passed := true, err := false, marker := some [] }
-      else match mutes cfg ns t tz with
+      else match mutes cfg ns t tz callerOff with
         | none => { passed := true, err := true, marker := none }
         | some (muted, by_) => { passed := !muted, err := false, marker := some by_ }
 
 /-- `TimeActiveStage.Exec`. -/
-def activeStage (cfg : Named) (names : Option (List String)) (now : Option Int) (tz : String → Int) : StageOut :=
+def activeStage (cfg : Named) (names : Option (List String)) (now : Option Int) (tz : String → Int)
+    (callerOff : Int) : StageOut :=
   match names with
   | none => { passed := true, err := false, marker := some [] }
   | some ns =>
@@ -169,7 +186,7 @@ def activeStage (cfg : Named) (names : Option (List String)) (now : Option Int) 
     else match now with
       | none => { passed := true, err := true, marker := some [] }
       | some t =>
-        match mutes cfg ns t tz with
+        match mutes cfg ns t tz callerOff with
         | none => { passed := true, err := true, marker := none }
         | some (active, _) => { passed := active, err := false, marker := some (if active then [] else ns) }
 
@@ -177,12 +194,12 @@ def activeStage (cfg : Named) (names : Option (List String)) (now : Option Int) 
     an error ends the pipeline with no alerts; the mute stage runs only if the
     active stage handed alerts on. -/
 def pipeline (cfg : Named) (muteNames activeNames : Option (List String)) (now : Option Int)
-    (tz : String → Int) : StageOut :=
-  let a := activeStage cfg activeNames now tz
+    (tz : String → Int) (callerOff : Int) : StageOut :=
+  let a := activeStage cfg activeNames now tz callerOff
   if a.err then { a with passed := false }
   else if !a.passed then a
   else
-    let m := muteStage cfg muteNames now tz
+    let m := muteStage cfg muteNames now tz callerOff
     { passed := m.passed && !m.err, err := m.err,
       marker := match m.marker with | some x => some x | none => a.marker }
 
